@@ -1,6 +1,6 @@
 TITLE = "squash_in overwrites: the new event occupies [start, start+d), the rest stays"
 IMPORTS = ["From Coquelicot Require Import Coquelicot.", "From Coq Require Import ZArith List Bool.",
-           "From MV Require Import Base.Res Model.EventTree Model.TreeOps Model.Num Model.Envelope Proofs.TreeLemmas Proofs.SplitBase Proofs.Squash Proofs.RNum Proofs.Resample Proofs.EnvSquash.",
+           "From MV Require Import Base.Res Model.EventTree Model.TreeOps Model.Num Model.Envelope Proofs.TreeLemmas Proofs.SplitBase Proofs.Squash Proofs.RNum Proofs.Resample Proofs.EnvSquash Proofs.NoAttr.",
            "Import ListNotations.", "Open Scope Z_scope."]
 ENTRIES = [
  ("C05_sequence", "squash_in_seq", "into a sequence at 0 <= start <= duration: duration max(old, start+d); the new event occupies [start, start+d) and begins exactly at start (it is the i-th child and the children before it sum to start); everything before start and after start+d stays at its old time (at_seq of the result equals at_seq of the original there); same tag and tempo"),
@@ -14,8 +14,10 @@ ENTRIES = [
  ("C05_envelope_receiver_at_end", "squash_at_end", "a new control point at the end is appended"),
  ("C05_envelope_receiver_inside_a_point", "squash_mid", "a new control point that begins inside a control point and reaches exactly to the next one: the point is divided, the rest of the envelope stays"),
  ("C05_envelope_receiver_inside_last_point", "squash_last_short", "inside the last control point: the point is divided around the new one"),
+ ("C05_attribute_error_only_from_leaf", "squash_in_attribute_error_only_from_leaf", "the error protocol Concurrence.squash_in relies on when it catches AttributeError around the call on a child: in the model that error is the answer of a leaf and of nothing else (no sequence, no simultaneity, at no depth, for no argument)"),
 ]
-EXTRA = """(* what the general statement says about one event *)
+EXTRA = """Print na. Print is_leaf.
+(* what the general statement says about one event *)
 Print sq_ok. Print sq_post. Print emb.
 
 Example C05_example :
